@@ -268,7 +268,7 @@ def correspondence(c, tag, n_traces, steps):
 # ---------------------------------------------------------------------------------------------
 MONITORS = ["corr", "c12_one_timer", "c02_save_before_emit", "c02_one_signature_per_lifetime",
             "c02_one_signature_ever", "c02_one_emission_ever", "c08_targets", "c08_rounds", "c08_finalize", "c08_once_per_round",
-            "sm_responsive", "c08_stale_view_inert", "c10_sm_resume"]
+            "sm_responsive", "c08_stale_view_inert", "c10_sm_resume", "c07_sm_valset", "c08_height_after_fin"]
 
 EVAL_HEADER = """From Coq Require Import List NArith String Bool.
 From GV Require Import Base.Ints Gen.Math Gen.StepSM Model.StateMachine Model.SMWire Model.SMWalk Model.SMScenarios Monitors.SMm.
@@ -287,9 +287,9 @@ Definition judge (es : list event) (sg : bool) (impl : list (list (list N) * lis
   let t : list obs := combine (map enc_event es) (map (fun p => fst p ++ snd p) impl) in
   let tm : list obs := combine (map enc_event es) (map (fun p => fst p ++ snd p) model) in
   map nbb [outs_eqb model impl; c12_one_timer t; c02_save_before_emit t; c02_one_signature_per_lifetime t;
-           c02_one_signature_ever t; c02_one_emission_ever t; c08_targets t; c08_rounds t; c08_finalize t; c08_once_per_round t; sm_responsive t; c08_stale_view_inert t; c10_sm_resume t]
+           c02_one_signature_ever t; c02_one_emission_ever t; c08_targets t; c08_rounds t; c08_finalize t; c08_once_per_round t; sm_responsive t; c08_stale_view_inert t; c10_sm_resume t; c07_sm_valset t; c08_height_after_fin t]
   ++ map nbb [c12_one_timer tm; c02_save_before_emit tm; c02_one_signature_per_lifetime tm;
-              c02_one_signature_ever tm; c02_one_emission_ever tm; c08_targets tm; c08_rounds tm; c08_finalize tm; c08_once_per_round tm; sm_responsive tm; c08_stale_view_inert tm; c10_sm_resume tm].
+              c02_one_signature_ever tm; c02_one_emission_ever tm; c08_targets tm; c08_rounds tm; c08_finalize tm; c08_once_per_round tm; sm_responsive tm; c08_stale_view_inert tm; c10_sm_resume tm; c07_sm_valset tm; c08_height_after_fin tm].
 """
 
 
